@@ -5,7 +5,7 @@ T = ['matrix', 'vector', 'memwrapper', 'numeric', 'algebra', 'tensor', 'list', '
 META = dict(
     functions=['R2', 'MSE', 'RMSE', 'MAE', 'BIAS', 'ROC', 'PrecisionRecall', 'curve_area', 'MatrixAppendCol', 'MatrixAppendRow', 'MatrixReverseSort', 'MatrixCopy'],
     bounds='regression vectors n<=4 (thorough 5) with every mask of MISSING-coded truths leaving >=2 values, values symbolic in [-1e6,1e6], non-constant truth; IEEE-exact perfect-prediction obligation n=2,3; ROC/PR: every binary truth vector with both classes and every strict score order, n<=3 complete plus n=4 with a fixed third of the orders in quick; complete up to n=5 in thorough, scores symbolic within the order; curve_area n<=5',
-    outside='rounding except in the IEEE-exact perfect-prediction obligation; ties between scores; vectors longer than the bound; the PLS/MLR statistic tables (the same functions applied per column; layout is C03/C05)',
+    outside='rounding except in the IEEE-exact perfect-prediction obligation; ties between scores; vectors longer than the bound; the PLS statistic table (symbolic vector sizes: not encodable over the reals; its column layout ny*lv+j is decided in C03/C05)',
     stubs=['sqrt = exact real root (E-REAL)'],
     assumptions=['truth variance >= 1e-6 (non-constant truth)', 'AUC invariances are consequences of the Mann-Whitney identity, not separate queries'],
 )
@@ -39,6 +39,12 @@ def obligations(tier):
                     obs.append(Ob(id=f'{nm}/n{n}/labels{labels:0{n}b}/order{"".join(map(str, perm))}', harness='C15/roc.c', tus=T,
                                   defs={'HP_N': n, 'HP_LABELS': labels, 'HP_PERM': ','.join(map(str, perm)), 'HP_WHICH': which}, engine='real', unwind=n + 4, timeout=to,
                                   clause='ROC curve and Mann-Whitney AUC' if which == 0 else 'precision-recall curve', stubs=R, real={'nomissing': True, 'tactics': ('default', 'nlsat')}))
+    TT = T + ['pls', 'mlr', 'pca', 'preprocessing', 'metricspace']
+    # (the PLS table skips MISSING truths while appending to growing vectors: symbolic sizes put raw-byte memory operations into the VC, which the
+    #  real-arithmetic rewriter rejects - measured undecided; the MLR table, which has no such branch, is decided)
+    for (n, ny, nlv, mlr) in [(2, 2, 1, 1), (3, 2, 1, 1), (3, 1, 1, 1)]:
+        obs.append(Ob(id=f'tables/{"mlr" if mlr else "pls"}/n{n}ny{ny}nlv{nlv}', harness='C15/tables.c', tus=TT, defs={'HP_N': n, 'HP_NY': ny, 'HP_NLV': nlv, 'HP_MLR': mlr}, engine='real', unwind=8, timeout=to,
+                      clause='statistic tables = the figures of merit per response and latent variable', stubs=('sym_real_env_uf.c',), real={'nomissing': True, 'tactics': ('default', 'nlsat')}))
     for n in (2, 3, 4, 5):
         obs.append(Ob(id=f'area/n{n}', harness='C15/area.c', tus=T, defs={'HP_N': n}, engine='real', unwind=8, timeout=to, clause='trapezoid area', stubs=R, real={'nomissing': True}))
     return obs
